@@ -95,7 +95,7 @@ def run(ctx, prop):
         ctx.model_check("MC_Server", "MC_Server_deep_%s.cfg" % prop, timeout=3000, coverage=False)
     # 2. behaviours -> scripts
     batches = 1 if quick else 6
-    nsim = {"C04": 60, "C12": 40, "C13": 30, "C17": 60}[prop] if quick else 150
+    nsim = {"C04": 60, "C12": 28, "C13": 26, "C17": 60}[prop] if quick else 150
     scripts = []
     for b in range(batches):
         _, items = ctx.generate("MC_Server", "Gen_Server_%s.cfg" % prop, "gen%d.ndjson" % b, simulate=nsim, depth=40,
